@@ -285,7 +285,9 @@ class Run:
             if kind == 'numpy':
                 main_data, marg = data_np, 'MArray %d %d false' % (N, M)
             elif kind == 'dask':
-                main_data, marg = da.from_array(data_np, chunks=(max(1, N // 2), M)), 'MArray %d %d true' % (N, M)
+                # irregular row chunks (a larger first chunk, a remainder after it) whenever there are >= 3 rows
+                row_chunks = (N // 2 + 1, N - N // 2 - 1) if N >= 3 else (N,)
+                main_data, marg = da.from_array(data_np, chunks=(row_chunks, (M,))), 'MArray %d %d true' % (N, M)
             elif kind == 'empty':
                 main_data, marg = rng_choice_shape(N, M, sc), 'MShape true [%d; %d] true true' % (N, M)
                 kwargs['dtype'] = dt
@@ -579,6 +581,68 @@ def rng_choice_shape(N, M, sc):
     return (N, M) if len(str(sc['name'])) % 2 else [N, M]
 
 
+def long_dimension_cases(ctx, out, hist):
+    """designed, seed-independent: one dimension with more steps than fit 16 bits, on either side, both orderings, numpy and
+    multi-chunk dask data with a remainder; judged by the integer oracle only (too large for the in-Coq evaluation)"""
+    import pyUSID as usid
+    from pyUSID.io.hdf_utils import write_main_dataset
+    hist['long_dimension_calls'] = 0
+    path = os.path.join(ctx.tmp, 'c02_long.h5')
+    L = 70001
+    for ci, (side, s2f, kind) in enumerate([('pos', False, 'numpy'), ('spec', True, 'dask'), ('pos', True, 'dask')]):
+        if os.path.exists(path):
+            os.remove(path)
+        small = 2
+        N, M = (L * small, 3) if side == 'pos' else (3, L * small)
+        data = (np.arange(N, dtype=np.float32)[:, None] * 0.5 + np.arange(M, dtype=np.float32)[None, :] * 1024.0)
+        long_dims = [usid.Dimension('Time', 's', np.arange(L) * 0.25), usid.Dimension('Rep', 'a.u.', small)]   # first fastest
+        other = [usid.Dimension('Bias' if side == 'pos' else 'X', 'V', 3)]
+        given = list(reversed(long_dims)) if s2f else long_dims
+        pos_d, spec_d = (given, other) if side == 'pos' else (other, given)
+        md = data if kind == 'numpy' else da.from_array(data, chunks=((N // 2 + 7, N - N // 2 - 7), (M,)))
+        desc = {'long_side': side, 'steps': L, 'slow_to_fast': s2f, 'data': kind}
+        with h5py.File(path, 'w') as f:
+            grp = f.create_group('g')
+            try:
+                with common.quiet():
+                    h = write_main_dataset(grp, md, 'Raw', 'q', 'u', pos_d, spec_d, slow_to_fast=s2f)
+            except Exception as e:
+                out.violations.append({'call_site': 'write_main_dataset', 'input_class': 'valid_arguments', 'failure_mode': 'valid_call_rejected',
+                                       'what': '%r for %s' % (e, desc), 'case': desc})
+                continue
+            hist['long_dimension_calls'] += 1
+            inds = grp['Position_Indices' if side == 'pos' else 'Spectroscopic_Indices'][()]
+            vals = grp['Position_Values' if side == 'pos' else 'Spectroscopic_Values'][()]
+            labs = [x.decode() if isinstance(x, bytes) else str(x) for x in grp['Position_Indices' if side == 'pos' else 'Spectroscopic_Indices'].attrs['labels']]
+            if side == 'pos':
+                inds, vals = inds.T, vals.T
+            n = np.arange(L * small, dtype=np.int64)
+            want = {'Time': n % L, 'Rep': n // L}
+            bad = None
+            if sorted(labs) != ['Rep', 'Time'] or inds.shape != (2, L * small):
+                bad = 'ancillary shape / labels %s %s' % (inds.shape, labs)
+            else:
+                for row, lab in enumerate(labs):
+                    if not np.array_equal(inds[row].astype(np.int64), want[lab]):
+                        k = int(np.argmax(inds[row].astype(np.int64) != want[lab]))
+                        bad = 'index of %s at point %d is %d, expected %d' % (lab, k, int(inds[row][k]), int(want[lab][k]))
+                        break
+                    ref = want[lab] * (0.25 if lab == 'Time' else 1.0)
+                    if not np.array_equal(vals[row].astype(np.float64), ref.astype(np.float32).astype(np.float64)):
+                        bad = 'value row of %s does not equal value[index]' % lab
+                        break
+            if bad:
+                out.violations.append({'call_site': 'write_main_dataset', 'input_class': 'valid_arguments', 'failure_mode': 'coordinates_not_cartesian_product',
+                                       'what': '%s for %s' % (bad, desc), 'case': desc})
+            stored = h[()]
+            if stored.shape != data.shape or not np.array_equal(stored, data):
+                k = np.argwhere(stored != data)
+                out.violations.append({'call_site': 'write_main_dataset', 'input_class': 'valid_arguments', 'failure_mode': 'stored_values_differ',
+                                       'what': 'first difference at %s for %s' % (k[0].tolist() if len(k) else stored.shape, desc), 'case': desc})
+    if os.path.exists(path):
+        os.remove(path)
+
+
 def run(ctx, build):
     out = common.Outcome()
     rng = ctx.rng
@@ -632,12 +696,14 @@ def run(ctx, build):
             distinct.add(('defect', sc['defect'], sc['pos']['kind'], sc['spec']['kind']))
         if len(out.samples) < 4 and (i % 5 == 0 or i % 5 == 3):
             out.samples.append({'scenario': {k: v for k, v in sc.items() if k != 'attrs'}, 'result': r['exc'] or 'accepted', 'members_after': r['after_names']})
+    long_dimension_cases(ctx, out, hist)
     bad, err = common.coq_eval_cases(ctx, HEADER, cases, 'check02', case_type='case02', per_file=40)
     out.corr_error = err
     out.disagreements = [meta[i] for i in bad]
     out.evaluations = len(cases)
     out.distinct_nontrivial = len(distinct)
-    out.rule = ('calls of write_main_dataset on groups with prior members: numpy / dask / empty-with-dtype data of 4 dtypes, 1-3 dimensions per side with sizes 1-4, '
+    out.rule = ('three designed calls with a 70 001-step dimension (either side, both orderings, numpy and irregularly chunked dask; integer oracle only); '
+                'calls of write_main_dataset on groups with prior members: numpy / dask (irregular row chunks) / empty-with-dtype data of 4 dtypes, 1-3 dimensions per side with sizes 1-4, '
                 'both ordering flags, default and custom prefixes (with "-", without trailing "_"), single Dimension objects, ancillaries reused from the same file and '
                 'from another file (copy, copy onto an equal existing dataset), creation kwargs, user attributes; 40 %% of the calls carry one of %d defects '
                 '(size mismatch per side, taken names, wrong types, ranks, shape lists, kwargs, attributes, dimension modes, reuse defects, read-only / non-group target); '
